@@ -33,6 +33,8 @@ D2(T) == Leaves(T)
 \* casts of compound terms: this is where a real-/int-typed statement contains truncated subtraction
 Casts(T) == (IF T \in {"int", "real"} THEN { Un("of_nat", "nat", T, a) : a \in D2("nat") \ Leaves("nat") } ELSE {})
             \cup (IF T = "real" THEN { Un("of_int", "int", T, a) : a \in D2("int") \ Leaves("int") } ELSE {})
+\* one level deeper below a subtraction: (a - b) + c, (a - b) * c -- where untruncated evaluation of a nat term goes wrong
+Deep(T) == { Bin(op, T, Bin("minus", T, a, b), c) : op \in {"plus", "times"}, a \in Leaves(T), b \in Leaves(T), c \in Leaves(T) }
 Rhs(T) == { Num(T, k) : k \in RhsVals } \cup (IF T = "nat" THEN {} ELSE { NegNum(T, k) : k \in RhsVals \cap {1, 2} })
                     \cup (IF T = "real" THEN {Frac(T, 1, 2)} \cup (IF FullEq THEN {UMinus(T, Frac(T, 1, 2)), Frac(T, 3, 2)} ELSE {}) ELSE {})
 
@@ -122,13 +124,13 @@ RefStep(s, g) ==
 \* ---------------------------------------------------------------- goals
 CastRels == IF FullEq THEN Rels ELSE {"equals", "less"}
 GoalsA == UNION { UNION { { Rel(rel, T, l, r) : rel \in Rels, r \in Rhs(T) } : l \in D2(T) } : T \in NumT }
-          \cup UNION { UNION { { Rel(rel, T, l, r) : rel \in CastRels, r \in Rhs(T) } : l \in Casts(T) } : T \in NumT }
+          \cup UNION { UNION { { Rel(rel, T, l, r) : rel \in CastRels, r \in Rhs(T) } : l \in Casts(T) \cup Deep(T) } : T \in NumT }
 \* equations between two compound terms: all of them (FullEq), or those that SOME evaluator model equates at SOME type
 \* (these are the goals a type-blind step would accept: the interesting ones)
 WithEv(T) == { <<e, <<NatEv(e), IntEv(e), RealEv(e)>>>> : e \in D2(T) }
 EqByModel(a, b) == \E i \in 1..3 : ~RIsOvf(a[i]) /\ a[i] = b[i]
 GoalsB == UNION { { Rel("equals", T, pq[1][1], pq[2][1]) : pq \in { x \in WithEv(T) \X WithEv(T) : FullEq \/ EqByModel(x[1][2], x[2][2]) } } : T \in NumT }
-GoalsN == { Not(g) : g \in { x \in GoalsA : x[3][2] \in { Num(ArgT(x), 0), Num(ArgT(x), 2) } /\ x[3][1] \in D2(ArgT(x)) } }
+GoalsN == { Not(g) : g \in { x \in GoalsA : x[3][2] \in { Num(ArgT(x), 0) } \cup (IF FullEq THEN { Num(ArgT(x), 2) } ELSE {}) /\ x[3][1] \in D2(ArgT(x)) } }
 Goals == GoalsA \cup GoalsB \cup GoalsN
 
 \* ---------------------------------------------------------------- the machine
